@@ -638,8 +638,15 @@ def creating_case(data, label, accessor, acc, witness):
         return
     b1 = io.BytesIO()
     prs.save(b1)
-    ga = graph(opcx.Pkg.from_bytes(b0.getvalue()))
-    gb = graph(opcx.Pkg.from_bytes(b1.getvalue()))
+    pa, pb = opcx.Pkg.from_bytes(b0.getvalue()), opcx.Pkg.from_bytes(b1.getvalue())
+    ga, gb = graph(pa), graph(pb)
+    # "saving never changes the meaning of any part": what XML equivalence cannot see - a prefix named by a markup-compatibility
+    # attribute must still be declared after saving, when it was in the deck as opened
+    was = undeclared_mc_prefixes(opcx.Pkg.from_bytes(data))
+    acc.count("saved_packages_checked_for_mc_prefix_declarations", 2)
+    for tag_, pk in (("straight save", pa), ("save after traversal", pb)):
+        for name, pfx in sorted(undeclared_mc_prefixes(pk) - was)[:2]:
+            acc.violation("mc-prefix-undeclared-after-save", "%s: %s of %s names prefix %r in a markup-compatibility attribute but no longer declares it" % (label, tag_, name, pfx), witness)
     acc.hit("creating:" + accessor)
     acc.count("creating_accessor_applications", n)
     seen_documented = False
@@ -681,6 +688,35 @@ def plan(tier, seed):
     for lo in range(0, ngen, per):
         units.append({"kind": "generated", "lo": lo, "hi": lo + per})
     return units
+
+
+MC_NS = "http://schemas.openxmlformats.org/markup-compatibility/2006"
+
+
+def undeclared_mc_prefixes(pkg):
+    """{(part, prefix)}: namespace prefixes that markup-compatibility attributes name (mc:Ignorable="p14", mc:Choice
+    Requires="v", ...) without a declaration in scope.  Such a prefix is used only inside attribute VALUES, so XML equivalence
+    of the element tree does not see its declaration go; the part's meaning does (the reader no longer knows what to ignore)."""
+    from lxml import etree
+    from vlib.xsdkit import PLAIN
+
+    out = set()
+    for name, blob in pkg.members.items():
+        if not (name.endswith(".xml") or name.endswith(".rels")) or b"markup-compatibility" not in blob:
+            continue
+        try:
+            root = etree.fromstring(blob, PLAIN)
+        except etree.XMLSyntaxError:
+            continue
+        for el in root.iter():
+            if not isinstance(el.tag, str):
+                continue
+            for k, v in el.attrib.items():
+                if k.startswith("{%s}" % MC_NS) or (k == "Requires" and el.tag == "{%s}Choice" % MC_NS):
+                    for pfx in v.split():
+                        if pfx.split(":")[0] not in el.nsmap:
+                            out.add((name, pfx.split(":")[0]))
+    return out
 
 
 def one_case(data, label, rnd, passes, nsaves, acc, witness):
